@@ -703,6 +703,11 @@ func (x *Exec) VerifyFunc(fn *ssa.Function, spec *FuncSpec) (obls []*Obligation,
 	}()
 	vc := &VC{fn: fn, spec: spec, initHeap: map[string]*Term{}, checkFrame: true}
 	x.vc = vc
+	for ord := range spec.Loops {
+		if ord < 1 || ord > len(x.info(fn).loopList) {
+			fail("contract names loop %d, the function has %d loop(s)", ord, len(x.info(fn).loopList))
+		}
+	}
 	x.n = 0 // names of generated symbols depend only on the function under verification
 	vc.trackPanics = spec.NoPanic || len(spec.PanicsIf) > 0 || len(spec.PanicsIff) > 0
 	vc.allocBase = Var("alloc_0", SInt)
